@@ -86,6 +86,8 @@ def run_property(prop, tier="quick", repo_root="/repo", seed=0, only=None, verbo
     spec = Spec()
     spec.load_dir(os.path.join(VERIF, "contracts"), gnums)
     eng = Engine(repo, spec)
+    known0 = load_json(os.path.join(VERIF, "known_findings.json"), {"findings": [], "fixed": []})
+    eng.known_regions = {f["obligation"]: f for f in known0.get("findings", []) if f["property"] == prop and f.get("region")}
     timeout_ms = 20000 if tier == "quick" else 120000
     known = load_json(os.path.join(VERIF, "known_findings.json"), {"findings": [], "fixed": []})
     baseline = load_json(os.path.join(VERIF, "contracts", "BASELINE_OBLIGATIONS.json"), {})
@@ -127,12 +129,17 @@ def run_property(prop, tier="quick", repo_root="/repo", seed=0, only=None, verbo
         by_name.setdefault(ob.name, []).append(x)
 
     discharged, failed, undecided = [], [], []
+    known_lines = []
     canary_ok = {}
     for name, xs in sorted(by_name.items()):
         kind = xs[0]["obligation"].kind
+        if kind == "known-region":
+            if any(x["verdict"] == "sat" for x in xs):
+                known_lines.append("KNOWN-FINDING: property=%s %s" % (prop, xs[0]["obligation"].extra.get("what")))
+            continue
         if kind == "canary":
             fn = xs[0]["obligation"].func
-            canary_ok[fn] = canary_ok.get(fn, False) or any(x["verdict"] == "sat" for x in xs)
+            canary_ok[fn] = canary_ok.get(fn, False) or any(x["verdict"] != "unsat" for x in xs)
             continue
         vs = [x["verdict"] for x in xs]
         if all(v == "unsat" for v in vs):
@@ -146,17 +153,16 @@ def run_property(prop, tier="quick", repo_root="/repo", seed=0, only=None, verbo
         if r is not None and r.status == "ok" and c.qual not in canary_ok:
             vacuous.append(c.qual)
 
-    names_now = set(norm(n) for n in by_name if by_name[n][0]["obligation"].kind != "canary")
+    names_now = set(norm(n) for n in by_name if by_name[n][0]["obligation"].kind not in ("canary", "known-region"))
     not_generated = sorted(n for n in base_names if n not in names_now)
 
     # ---- violations
     violations = []
-    known_lines = []
     os.makedirs(os.path.join(VERIF, "replays", prop), exist_ok=True)
     kf = [f for f in known.get("findings", []) if f["property"] == prop]
     for name, xs in failed:
         nname = norm(name)
-        kmatch = [f for f in kf if f["obligation"] == nname]
+        kmatch = [f for f in kf if f["obligation"] == nname and not f.get("region")]
         x = xs[0]
         ob = x["obligation"]
         model = x.get("model") or {}
